@@ -8,7 +8,7 @@
 
 using namespace vf;
 
-uint64_t vf_total(const std::string&) { return 0; }
+uint64_t vf_total(const std::string& mode) { return mode == "boundary32" ? 4 : 0; }
 
 // C12 print accuracy; a double that is exactly a float is stored (and printed) as a float
 // by design (DESIGN.md don't-care 13), so it is judged by the float bound.
@@ -72,7 +72,13 @@ void vf_run_case(Ctx& c, uint64_t index) {
   g.max_str = r.chance(1, 10) ? 70 : 24;
   if (r.chance(1, 50)) g.long_str = 300;
   MVal model;
-  if (r.chance(1, 25)) model = gen_chain(r, (int)r.range(1, 30), (int)r.below(3));
+  if (c.mode == "boundary32") {
+    // documents at the 16/32-bit header boundary of MessagePack maps and arrays (about a minute each: building is quadratic)
+    size_t n = index % 2 == 0 ? 65536 : 65535;
+    if (index >= 2) { /* objects: thorough tier only, each costs minutes */ model = MVal::obj(); for (size_t i = 0; i < n; i++) model.o.emplace_back("k" + std::to_string(i), MVal::uint(i & 0xff)); }
+    else { model = MVal::arr(); for (size_t i = 0; i < n; i++) model.a.push_back(i % 3 ? MVal::uint(i & 0x7f) : MVal::str("s")); }
+  }
+  else if (r.chance(1, 25)) model = gen_chain(r, (int)r.range(1, 30), (int)r.below(3));
   else model = gen_value(r, g);
   size_t depth = model.nesting();
   auto limit = AJ::DeserializationOption::NestingLimit((uint8_t)std::min<size_t>(255, std::max<size_t>(10, depth)));
